@@ -145,6 +145,9 @@ func (r *R) view(ctx sdk.Context) (classes []classView, toks []tokView, classLin
 	return
 }
 
+// State renders the canonical module state (hx.Stater): the projection the observation lines carry.
+func (r *R) State(ctx sdk.Context) string { return r.state(ctx) }
+
 // state renders the canonical observation line.
 func (r *R) state(ctx sdk.Context) string {
 	k := r.env.NFT
@@ -401,7 +404,7 @@ func (r *R) Gen(ctx sdk.Context, g *hx.Rng) string {
 		}
 		u := change(g, func() string { return uri(g) })
 		if g.Chance(1, 10) {
-			u = uriOfLen(257+g.Intn(3), g) // MsgTransferNFT.ValidateBasic has no URI length rule
+			u = uriOfLen(256+g.Intn(3), g) // the URI length rule of MsgTransferNFT.ValidateBasic (F-gen-4), at and past the limit
 		}
 		return transferLine(sender, rc, t.class, t.id, change(g, func() string { return str(g) }), u,
 			change(g, func() string { return str(g) }), change(g, func() string { return data(g) }))
